@@ -1,0 +1,33 @@
+//go:build verif
+
+// Contracts for package main, property C18 (comment-only; read by /verif/vcgo, build tag verif).
+package main
+
+// FirstSuccess: the consumer loop is verified for an ARBITRARY finite sequence of received results
+// (chanlen(results) values chanat(results, i), i.e. every completion order at once). That the sequence is the multiset of
+// the jobs' results (each job sends once; the channel is closed after all jobs returned) is the trusted channel/errgroup row.
+
+//@ func FirstSuccess
+//@   mode int
+//@   noframe
+//@   ensures result1 == nil ==> exists i int :: 0 <= i && i < chanlen(results) && chanat(results, i).err == nil && chanat(results, i).val == result0
+//@   ensures (exists i int :: 0 <= i && i < chanlen(results) && i < len(fns) && chanat(results, i).err == nil) ==> result1 == nil
+//@   ensures result1 != nil ==> forall i int :: 0 <= i && i < chanlen(results) && i < len(fns) ==> chanat(results, i).err != nil
+//@   loop 1 invariant len(errs) == rangeidx1 && (len(fns) > 0 ==> len(errs) < len(fns))
+//@   loop 1 invariant forall i int :: 0 <= i && i < rangeidx1 ==> chanat(results, i).err != nil
+//@   loop 1 decreases chanlen(results) - rangeidx1
+
+//@ func (ErrorSlice) All
+//@   mode int
+//@   fnpure predicate
+//@   requires predicate != nil
+//@   ensures result <==> forall i int :: 0 <= i && i < len(e) ==> res0(predicate, e[i])
+//@   loop 0 invariant forall i int :: 0 <= i && i < rangeidx0 ==> res0(predicate, e[i])
+
+//@ func (ErrorSlice) Filter
+//@   mode int
+//@   fnpure predicate
+//@   requires predicate != nil
+//@   ensures forall i int :: 0 <= i && i < len(result) ==> res0(predicate, result[i])
+//@   ensures len(result) <= len(e)
+//@   loop 0 invariant len(errs) <= rangeidx0 && (forall i int :: 0 <= i && i < len(errs) ==> res0(predicate, errs[i]))
